@@ -165,7 +165,7 @@ class World:
         ok = parser.parse(text)
         return parser, ok
 
-    def run_program(self, program, cap=5000, machine=None, stop_at=None):
+    def run_program(self, program, cap=5000, machine=None, stop_at=None, observer=None):
         """Run a compiled program on a real Machine; returns Result."""
         res = Result()
         res.accepted = True
@@ -174,6 +174,7 @@ class World:
         m = machine or Machine()
         res.machine = m
         counter = [0, False]
+        m._mc_observer = observer
         if not getattr(m, '_mc_wrapped', False):
             m._mc_counter = counter
             m._mc_cap = cap
@@ -241,5 +242,8 @@ def _wrap(m, fn):
             return None
         if m._mc_stop_at is not None and c[0] == m._mc_stop_at:
             m.stop()
+        obs = m._mc_observer
+        if obs is not None:
+            obs(m)
         return fn()
     return stepped
